@@ -352,7 +352,7 @@ def run(chk, P):
     r05_6(chk, P)
     chk.floor('R05.6', 2)
     r05_7(chk, P)
-    chk.floor('R05.7', 2)
+    chk.floor('R05.7', 1)
     chk.notes.append(f'R05.1: {npairs} writer/reader pairs ({[f"{a}<->{b}" for a, b in layout.PAIRS + layout.slot_pairs(P)]}), '
                      f'{nfields} aligned fields role-checked')
     chk.trusted += ['clang 14 front end', 'libogg: oggpack_write(b,v,n) appends the low n bits of v; oggpack_read(b,n) returns them',
